@@ -192,7 +192,9 @@ theorem app_ok (T : ClassTable) (m : String) (v v' : Val) (hv : ValOk v) (h : ap
     | (simp only [Option.some.injEq] at h; subst h; simp only [ValOk] at hv ⊢; exact (subexpr_ok _ hv).1)
     | (simp only [Option.some.injEq] at h; subst h; simp_all [ValOk, spined])
     | skip
-  all_goals (dsimp only at h; split at h <;> (simp only [Option.some.injEq] at h; subst h; simp [ValOk, spined]))
+  all_goals (dsimp only at h; split at h <;> first
+    | (cases h; done)
+    | (simp only [Option.some.injEq] at h; subst h; simp [ValOk, spined]))
 
 /-- **Whatever the mapper model returns for a pattern is made of item lists**, for every grammar and class table. -/
 theorem parsePat_spined (G : Rules) (top : String) (T : ClassTable) (s : List Rune) (p : Pat)
